@@ -342,11 +342,6 @@ def _cached_build_cp_atom_payload(cache, sequence, restrict, payload_form=False)
 
 
 def _build_cp_atom_payload(sequence, restrict, payload_form=False, interner=None):
-    locked = {}
-    ldefault = locked.setdefault
-
-    l = []
-
     if payload_form:
 
         def f(r, neg, pos):
@@ -361,24 +356,48 @@ def _build_cp_atom_payload(sequence, restrict, payload_form=False, interner=None
             return ()
         return (f(i[0].key, i[0].neg, i[0].pos),)
 
-    i = reversed(i)
+    # Walk right to left.  locked is the net effect of the globals seen so far, which
+    # all apply after the chunks still to be visited; wiped holds the prefixes those
+    # globals clear ('' for -*, 'foo_' for -foo_*).  Whatever an earlier chunk says
+    # about a locked or wiped flag is dead.
+    locked = {}
+    wiped = []
 
-    for data in i:
+    def dead(flag):
+        return flag in locked or any(flag.startswith(x) for x in wiped)
+
+    l = []
+
+    for data in reversed(i):
         if data.key == packages.AlwaysTrue or getattr(data.key, "is_simple", False):
-            for n in data.neg:
-                ldefault(n, False)
-            for p in data.pos:
-                ldefault(p, True)
+            # within a chunk negations apply first, thus visit the positives first.
+            for flag in data.pos:
+                if not dead(flag):
+                    locked[flag] = True
+            clears = []
+            for flag in data.neg:
+                if not dead(flag):
+                    locked[flag] = False
+                    if flag.endswith("*"):
+                        clears.append(flag[:-1])
+            wiped.extend(clears)
+            if "" in clears:
+                # -*; nothing earlier survives.
+                break
             continue
-        neg = tuple(x for x in data.neg if x not in locked)
-        pos = tuple(x for x in data.pos if x not in locked)
+        neg = tuple(x for x in data.neg if not dead(x))
+        pos = tuple(x for x in data.pos if not dead(x))
+        # the collapsed global is moved in front of this chunk; if the chunk clears by
+        # wildcard, flip back on what the later globals enabled.
+        clears = tuple(x[:-1] for x in neg if x.endswith("*"))
+        if clears:
+            pos += tuple(
+                k
+                for k, v in locked.items()
+                if v and k not in pos and k.startswith(clears)
+            )
         if neg or pos:
             l.append((data.key, neg, pos))
-
-    # thus far we've done essentially a tracing for R->L, of globals,
-    # this leaves d-u/a X, =d-u/a-1 X # slipping through however,
-    # since the specific is later.  Plus it's reversed from what we want.
-    # so we rebuild, but apply the same global trick as we go.
 
     if not locked:
         # all is specific/non-simple, just reverse and return
@@ -391,18 +410,27 @@ def _build_cp_atom_payload(sequence, restrict, payload_form=False, interner=None
             tuple(k for k, v in locked.items() if v),  # pos
         )
     ]
-    # we exploit a few things this time around in reusing the algo from above
-    # we know there is only going to be one global (which we just added),
-    # and that everything is specific.
 
+    # only keep the deltas against the global; a specific chunk repeating the global
+    # state is droppable as long as no earlier specific chunk touched that flag.
     lget = locked.get
+    touched = set()
+    touched_prefixes = []
+
+    def stale(flag):
+        return flag in touched or any(flag.startswith(x) for x in touched_prefixes)
 
     for key, neg, pos in reversed(l):
-        # only grab the deltas; if a + becomes a specific -
-        neg = tuple(x for x in neg if lget(x, True))
-        pos = tuple(x for x in pos if not lget(x, False))
-        if neg or pos:
-            new_l.append(f(key, neg, pos))
+        own = tuple(x[:-1] for x in neg if x.endswith("*"))
+        kept_neg = tuple(x for x in neg if x.endswith("*") or lget(x, True) or stale(x))
+        kept_pos = tuple(
+            x for x in pos if not lget(x, False) or stale(x) or x.startswith(own)
+        )
+        touched.update(neg)
+        touched.update(pos)
+        touched_prefixes.extend(x[:-1] for x in neg if x.endswith("*"))
+        if kept_neg or kept_pos:
+            new_l.append(f(key, kept_neg, kept_pos))
 
     return tuple(new_l)
 
